@@ -51,7 +51,7 @@ func execC08(ci any) (r hx.Result) {
 
 func init() {
 	hx.Register(&hx.Spec{ID: "C01", Gen: genC01, Exec: execC01, New: func() any { return new(histCase) },
-		Rule: "case = FAT configuration (type, size, start offset inside a larger device, sector size, label) + operation history (mkdir, create, write-at-offset, append, truncating open, rename incl. onto existing / case-only, remove, reopen-from-bytes, fill/empty/refill cycles, populate/empty/repopulate cycles, two live handles); after every step all listings and all file contents are compared with the reference model; non-trivial = a mutation after a release (remove/truncate/rename-over), or a refusal (no space / root full), or a reopen, with >= 3 live nodes or a refusal; distinct by hash of the case JSON"})
+		Rule: "case = FAT configuration (type, size, start offset inside a larger device, sector size, label) + operation history (mkdir, create, write-at-offset, append, truncating open, rename incl. onto existing / case-only, remove, reopen-from-bytes, fill/empty/refill cycles, fill-then-remove-one-and-grow-another, populate/empty/repopulate cycles with a Mkdir in the full directory, data written in one or two Write calls per handle, a FAT32 configuration with first clusters beyond 65535, two live handles) plus the bounded-exhaustive enumeration of short histories (see 'enumeration'); after every step all listings and all file contents are compared with the reference model; non-trivial = a mutation after a release (remove/truncate/rename-over), or a refusal (no space / root full), or a reopen, with >= 3 live nodes or a refusal; distinct by hash of the case JSON"})
 	hx.Register(&hx.Spec{ID: "C08", Gen: genC08, Exec: execC08, New: func() any { return new(histCase) },
 		Rule: "case = FAT configuration + operation history (as C01); after Create and after every step, accepted or refused, an independent parser of the raw bytes checks geometry, FAT32 backup boot sector and FSInfo, identical FAT copies, every chain in range / terminated / long enough, no cross-links, no lost clusters; non-trivial = an operation that must release clusters followed by an allocating operation; distinct by hash of the case JSON"})
 }
